@@ -46,7 +46,7 @@ def gen_contour(rnd, pt, opts):
         return [("qCurveTo", tuple(offs) + (None,)), ("closePath", ())]
     if opts.get("single", True) and r < 0.18:
         return [("moveTo", (pt(),)), (("closePath" if rnd.random() < 0.5 or closed_only else "endPath"), ())]
-    start = pt()
+    start = opts.get("_start") or pt()
     rec = [("moveTo", (start,))]
     if r < 0.22:
         # every point coincides
@@ -135,10 +135,24 @@ def gen_record(rnd, **opts):
     comps = opts.get("components")
     if comps and rnd.random() < 0.25:
         ncont = 0        # components only (composite glyph)
+    touch = opts.get("touch", 0.25)
+    last = None
     for i in range(ncont):
         if comps and rnd.random() < 0.3:
             rec.append(("addComponent", (rnd.choice(comps), gen_transform(rnd, opts.get("tkind")))))
-        rec.extend(gen_contour(rnd, pt, opts))
+            last = None
+        o = opts
+        if last is not None and rnd.random() < touch:
+            # the next contour starts where the previous one ended (shapes touching at a corner, pixel-style
+            # chains); in fractional modes sometimes a start that only *rounds* onto that point
+            st = last
+            if mode in FRAC_MODES and rnd.random() < 0.5:
+                st = (round(last[0]) + rnd.choice([0.25, -0.25, 0.0, 0.375]), round(last[1]) + rnd.choice([-0.25, 0.25, 0.0]))
+            o = dict(opts, _start=st, blob=False)
+        c = gen_contour(rnd, pt, o)
+        rec.extend(c)
+        segs = [e for e in c if e[0] in ("moveTo", "lineTo", "curveTo", "qCurveTo") and e[1][-1] is not None]
+        last = segs[-1][1][-1] if segs else None
     if comps and (not rec or rnd.random() < 0.5):
         for _ in range(rnd.randint(1, 2)):
             rec.append(("addComponent", (rnd.choice(comps), gen_transform(rnd, opts.get("tkind")))))
